@@ -188,19 +188,75 @@ theorem validate_model_congr (fs : List Field) (h2f f2h h2f' f2h' : List (Str ×
     validate (.model fs h2f f2h) t = validate (.model fs h2f' f2h') t := by
   cases t <;> simp [validate]
 
-theorem packRT_sub {sfs : List Field} {skvs : List (Str × Val)} (f2h : List (Str × Str))
-    (D : SubData sfs skvs) : PackRT (.model sfs [] f2h) (.model skvs) := by
-  refine ⟨joinCell (.list ((D.pairs.filter nonDefault).map subElem)),
+theorem assignValue_model_congr (fs : List Field) (h2f f2h f2h' : List (Str × Str)) :
+    assignValue (.model fs h2f f2h) = assignValue (.model fs h2f f2h') := by
+  simp [assignValue]
+
+theorem tryKwarg_pairs_none' (fas : List (Str × Assign)) (h2f : List (Str × Str)) (nd : List SPair) :
+    tryKwarg fas h2f (.list (nd.map subEntry)) = none := by
+  match nd with
+  | [] => simp [tryKwarg]
+  | [p] => simp [tryKwarg]
+  | [p, q] => simp [tryKwarg, subEntry]
+  | p :: q :: r :: rest => simp [tryKwarg]
+
+theorem assignEntries_kw' (sfs : List Field) (h2f : List (Str × Str)) (skvs : List (Str × Val)) :
+    ∀ (nd : List SPair) (rem : List (Str × Assign)) (acc : List (Str × Tree)),
+      SubOk sfs skvs nd → (∀ p ∈ nd, nonDefault p = true) →
+      (∀ p ∈ nd, remap h2f p.1.1 = p.1.1) →
+      (∀ p ∈ nd, alookup p.1.1 acc = none) →
+      assignEntries (fieldAssigners sfs) h2f rem (nd.map subEntry) acc = .ok (acc ++ nd.map subTr)
+  | [], _, acc, _, _, _, _ => by simp [assignEntries]
+  | p :: nd, rem, acc, hok, hnd, hrm, hacc => by
+    obtain ⟨_, ha, hfl, hb, hr⟩ := hok.2 p (by simp)
+    obtain ⟨_, _, hav, _, _, _, _⟩ := basic_leaf hb (hr (hnd p (by simp)))
+    have hkw : tryKwarg (fieldAssigners sfs) h2f (subEntry p) =
+        some (p.1.1, assignValue p.1.2.1, .atom (printBasic p.2)) := by
+      simp [tryKwarg, subEntry, hrm p (by simp), alookup_fieldAssigners sfs p.1.1 p.1 hfl]
+    simp only [List.map_cons, assignEntries, hkw, hav, setOpt]
+    rw [aset_of_absent _ _ acc (hacc p (by simp))]
+    rw [assignEntries_kw' sfs h2f skvs nd rem.tail _ (subOk_tail hok)
+      (fun q hq => hnd q (List.mem_cons_of_mem _ hq))
+      (fun q hq => hrm q (List.mem_cons_of_mem _ hq))]
+    · simp [subTr]
+    · intro q hq
+      rw [alookup_append, hacc q (List.mem_cons_of_mem _ hq)]
+      have hne : p.1.1 ≠ q.1.1 := by
+        intro e
+        have hmem : q.1.1 ∈ nd.map (·.1.1) := List.mem_map_of_mem (f := fun q : SPair => q.1.1) hq
+        rw [← e] at hmem
+        exact (List.nodup_cons.mp hok.1).1 hmem
+      simp [alookup, hne]
+
+theorem packRT_sub {sfs : List Field} {skvs : List (Str × Val)} (h2f f2h : List (Str × Str))
+    (hrm : ∀ f ∈ sfs, remap h2f f.1 = f.1)
+    (D : SubData sfs skvs) : PackRT (.model sfs h2f f2h) (.model skvs) := by
+  have hokf := subOk_filter D.hok
+  have hndall : ∀ p ∈ D.pairs.filter nonDefault, nonDefault p = true :=
+    fun p hp => (List.mem_filter.mp hp).2
+  obtain ⟨hwf, hcok⟩ := wfCell_pairs D.hne hokf hndall
+    (fun p hp => D.hfok p (List.mem_filter.mp hp).1 (hndall p hp))
+  refine ⟨Cell.joinCell (.list ((D.pairs.filter nonDefault).map subElem)),
     .dict ((D.pairs.filter nonDefault).map subTr), ?_, ?_, ?_⟩
   · intro pfx out
     have h1 := nestedFields_sub sfs skvs D.pairs D.hok
     rw [D.hfst] at h1
     simp only [writeValue, isBasicVal, Bool.false_eq_true, if_false, toNested, h1]
     rw [joinPacked_cell]
-  · have := sub_packed_leaf D
-    simp only [leafFn, leafValue, isListTy, isModelTy, Bool.false_or, if_true, assignValue] at this ⊢
-    exact this
-  · rw [validate_model_congr sfs [] f2h [] []]
+  · simp only [leafFn, leafValue, isListTy, isModelTy, Bool.false_or, if_true]
+    rw [cellParse_joinCell hwf hcok]
+    have hpv : PV.ofCell (.list ((D.pairs.filter nonDefault).map subElem)) =
+        .list ((D.pairs.filter nonDefault).map subEntry) := by
+      simp [PV.ofCell, List.map_map, PV.ofElem, subElem, subEntry, Function.comp]
+    simp only [hpv, assignValue, assignModel, tryKwarg_pairs_none']
+    rw [assignEntries_kw' sfs h2f skvs _ _ [] hokf hndall
+      (fun p hp => by
+        have hmem : p ∈ D.pairs := (List.mem_filter.mp hp).1
+        rw [D.hpairs] at hmem
+        exact hrm p.1 (List.of_mem_zip hmem).1)
+      (fun p _ => rfl)]
+    simp
+  · rw [validate_model_congr sfs h2f f2h [] []]
     exact validate_sub D
 
 end Rpft.Row
